@@ -8,7 +8,7 @@ from .seqgen import build_sequence, delay_value
 
 ID = "C10"
 ALLOWED_AXIOMS = []
-PROPS_FILES = ["C10", "C10b", "C15b"]
+PROPS_FILES = ["C10", "C10b", "C15b", "Reach"]
 RULE = ("consistent sequences of 1-3 positions and 1-4 channels (int and str ids) whose elements list their channels "
         "in independently shuffled order, blueprint channels (ramps, constant user functions, waits, marker 1 absolute, "
         "marker 2 segment-bound) and raw-array channels with markers, optional subsequences; per-channel delays of 0 "
